@@ -287,6 +287,11 @@ func runStopDuringClose() (*cloObs, string) {
 // kind 0: another connection takes the client id over (C10: the CONNECT must be answered)
 // kind 1: the broker is stopped (C20: Stop must return)
 // kind 2: the client is silent beyond its keep-alive (C19/C11: the connection must end, the Will be published)
+// kinds 5-7: a Will with RETAIN=1 (C11 "with its declared ... retain flag"): it is published live AND stored as the
+//         retained message of its topic - a later subscriber is sent it. 5: published when the connection ends,
+//         6: by the Will Delay timer, 7: at start-up (the delay elapsed while the broker was down)
+// kind 8: a v5 DISCONNECT that is a protocol error (a non-zero Session Expiry Interval after a CONNECT with 0): the
+//         connection ends by protocol error, not by a normal DISCONNECT - the Will is published (C11)
 // kind 3: not stalled but SLOW: a v5 client that keeps reading (64 bytes per millisecond) while 30 KB are on their way
 //         to it is taken over (C10: the new CONNECT is answered; the old connection gets "DISCONNECT 'session taken
 //         over'" - as a packet: everything it is sent decodes, and that DISCONNECT is the last thing before the end)
@@ -299,6 +304,12 @@ type stallObs struct {
 func runStalled(kind int) (*stallObs, string) {
 	if kind == 3 {
 		return runSlowTakeover()
+	}
+	if kind >= 5 && kind <= 7 {
+		return runWillRetained(kind - 5)
+	}
+	if kind == 8 {
+		return runWillAfterInvalidDisconnect()
 	}
 	obs := &stallObs{}
 	b, err := NewBroker(BrokerOpts{Preempt: true})
@@ -470,6 +481,135 @@ func runSlowTakeover() (*stallObs, string) {
 	obs.OK = connack && told && clean
 	if !obs.OK {
 		return obs, fmt.Sprintf("connack=%v told=%v clean=%v enderr=%q dangling=%d packets=%d", connack, told, clean, a.EndErr, len(a.Client.buf), len(a.Seq))
+	}
+	return obs, ""
+}
+
+func runWillRetained(path int) (*stallObs, string) {
+	obs := &stallObs{Closed: true}
+	b, err := NewBroker(BrokerOpts{Preempt: true})
+	if err != nil {
+		return obs, err.Error()
+	}
+	watch := func(b *Broker) (*Auto, string) {
+		wc := b.Dial()
+		if _, err := wc.Connect(ConnectOpts{ID: "watcher", Ver: mqttp.ProtocolV311, Clean: true}); err != nil {
+			return nil, "watcher: " + err.Error()
+		}
+		w := wc.Auto(false)
+		_ = w.SendL(mkSubscribe(mqttp.ProtocolV311, 1, []string{"will/#"}, []byte{1}))
+		if !w.WaitFor(5*time.Second, func() bool { return len(w.Others) >= 1 }) {
+			return nil, "watcher: no suback"
+		}
+		return w, ""
+	}
+	w, msg := watch(b)
+	if msg != "" {
+		b.Drop()
+		return obs, msg
+	}
+	ver := mqttp.ProtocolV311
+	if path > 0 {
+		ver = mqttp.ProtocolV50
+	}
+	will := mqttp.NewPublish(ver)
+	_ = will.Set("will/r", []byte{7}, 1, true, false)
+	o := ConnectOpts{ID: "wr", Ver: ver, Clean: true, Will: will}
+	if path > 0 {
+		_ = will.PropertySet(mqttp.PropertyWillDelayInterval, uint32(1))
+		exp := uint32(30)
+		o.Expiry = &exp
+	}
+	c := b.Dial()
+	if _, err := c.Connect(o); err != nil {
+		b.Drop()
+		return obs, "connect: " + err.Error()
+	}
+	before := b.Met.Disconnected()
+	c.Close()
+	deadline := time.Now().Add(5 * time.Second)
+	for b.Met.Disconnected() == before && time.Now().Before(deadline) {
+		time.Sleep(time.Millisecond)
+	}
+	if path == 2 {
+		// the broker goes down before the delay has elapsed and comes back after it
+		pers := b.Persist
+		atomic.StoreInt32(&b.mgrDown, 1)
+		stopped := make(chan struct{})
+		go func() { _ = b.Mgr.Stop(); _ = b.Mgr.Shutdown(); b.ShutdownTopics(); close(stopped) }()
+		select {
+		case <-stopped:
+		case <-time.After(10 * time.Second):
+			return obs, "shutdown did not return"
+		}
+		b.Drop2()
+		time.Sleep(1500 * time.Millisecond)
+		if b, err = NewBroker(BrokerOpts{Preempt: true, Persist: pers}); err != nil {
+			return obs, "restart: " + err.Error()
+		}
+	} else if !w.WaitFor(5*time.Second, func() bool { return len(w.Pubs) >= 1 }) {
+		b.Drop()
+		return obs, "the will was not published"
+	}
+	defer b.Drop()
+	// a subscriber that arrives afterwards
+	deadline = time.Now().Add(3 * time.Second)
+	for time.Now().Before(deadline) {
+		if r, _ := b.Topics.Retained("will/r"); len(r) == 1 {
+			break
+		}
+		time.Sleep(5 * time.Millisecond)
+	}
+	lc := b.Dial()
+	if _, err := lc.Connect(ConnectOpts{ID: "late", Ver: mqttp.ProtocolV311, Clean: true}); err != nil {
+		return obs, "late subscriber: " + err.Error()
+	}
+	la := lc.Auto(false)
+	_ = la.SendL(mkSubscribe(mqttp.ProtocolV311, 1, []string{"will/r"}, []byte{1}))
+	got := la.WaitFor(2*time.Second, func() bool { return len(la.Pubs) >= 1 })
+	if got {
+		la.mu.Lock()
+		m := la.Pubs[0]
+		obs.OK = m.Retain() && len(m.Payload()) == 1 && m.Payload()[0] == 7
+		la.mu.Unlock()
+	}
+	if !obs.OK {
+		return obs, "a subscriber that came after the will was published was not sent it as retained message"
+	}
+	return obs, ""
+}
+
+func runWillAfterInvalidDisconnect() (*stallObs, string) {
+	obs := &stallObs{}
+	b, err := NewBroker(BrokerOpts{Preempt: true})
+	if err != nil {
+		return obs, err.Error()
+	}
+	defer b.Drop()
+	wc := b.Dial()
+	if _, err := wc.Connect(ConnectOpts{ID: "watcher", Ver: mqttp.ProtocolV311, Clean: true}); err != nil {
+		return obs, "watcher: " + err.Error()
+	}
+	w := wc.Auto(false)
+	_ = w.SendL(mkSubscribe(mqttp.ProtocolV311, 1, []string{"will/#"}, []byte{0}))
+	if !w.WaitFor(5*time.Second, func() bool { return len(w.Others) >= 1 }) {
+		return obs, "watcher: no suback"
+	}
+	will := mqttp.NewPublish(mqttp.ProtocolV50)
+	_ = will.Set("will/pe", []byte{9}, 0, false, false)
+	zero := uint32(0)
+	c := b.Dial()
+	if _, err := c.Connect(ConnectOpts{ID: "pe", Ver: mqttp.ProtocolV50, Clean: true, Expiry: &zero, Will: will}); err != nil {
+		return obs, "connect: " + err.Error()
+	}
+	a := c.Auto(false)
+	d := mqttp.NewDisconnect(mqttp.ProtocolV50)
+	_ = d.PropertySet(mqttp.PropertySessionExpiryInterval, uint32(5))
+	_ = a.SendL(d)
+	obs.Closed = a.WaitFor(5*time.Second, func() bool { return a.closed })
+	obs.OK = w.WaitFor(3*time.Second, func() bool { return len(w.Pubs) >= 1 })
+	if !obs.OK {
+		return obs, "the connection was ended for a protocol error (the invalid DISCONNECT) and no Will was published"
 	}
 	return obs, ""
 }
